@@ -80,8 +80,17 @@ def _tc(a0, a1):
                  source_id=source_id, ack_flags=ack)
 
 
+_HELPERS = {8: PacketFieldU8, 16: PacketFieldU16, 32: PacketFieldU32}
+
+
 def _opt_pfe(l):
-    return PacketFieldEnum(l[1], l[2]) if l and l[0] == 1 else None
+    """odd values of 8/16/32-bit fields are built with the PacketFieldU8/U16/U32 helper classes,
+    which the library documents as the same field (so both ways of building one are exercised)"""
+    if not (l and l[0] == 1):
+        return None
+    if l[1] in _HELPERS and l[2] % 2 == 1 and 0 <= l[2] < 2 ** l[1]:
+        return _HELPERS[l[1]](l[2])
+    return PacketFieldEnum(l[1], l[2])
 
 
 def _of_opt_pfe(f):
